@@ -6,6 +6,7 @@ import (
 	"encoding/json"
 	"flag"
 	"fmt"
+	"io"
 	"math/rand"
 	"os"
 	"strings"
@@ -27,6 +28,15 @@ type gatedCall struct {
 
 // RunScheduled runs one SanitizeReader call per input concurrently on p; the Tok hook is the
 // scheduler gate: call sched[i] processes exactly one token at step i.
+// plainDest is a destination without a WriteString method (the library then goes through its own adapter).
+type plainDest struct{ b bytes.Buffer }
+
+func (d *plainDest) Write(p []byte) (int, error) { return d.b.Write(p) }
+
+// ScheduledPlainWriters selects the entry point of the scheduled calls: SanitizeReader (false) or SanitizeReaderToWriter into a
+// destination that has no WriteString method (true).
+var ScheduledPlainWriters bool
+
 func RunScheduled(p *bm.Policy, inputs [][]byte, sched []int) (outs [][]byte, err error) {
 	InstallHooks()
 	calls := make([]*gatedCall, len(inputs))
@@ -51,7 +61,15 @@ func RunScheduled(p *bm.Policy, inputs [][]byte, sched []int) (outs [][]byte, er
 				}
 				gc.ack <- false
 			}()
-			gc.out = p.SanitizeReader(rd).Bytes()
+			if ScheduledPlainWriters {
+				var d plainDest
+				if e := p.SanitizeReaderToWriter(rd, &d); e != nil {
+					panic(fmt.Sprintf("SanitizeReaderToWriter returned %v", e))
+				}
+				gc.out = d.b.Bytes()
+			} else {
+				gc.out = p.SanitizeReader(rd).Bytes()
+			}
 		}(gc, rd)
 	}
 	wait := func(gc *gatedCall) (bool, error) {
@@ -156,6 +174,15 @@ func checkSchedule(res *RunResult, recipe Recipe, twin *bm.Policy, inputs [][]by
 	for i, in := range inputs {
 		seq[i] = twin.SanitizeReader(bytes.NewReader(in)).Bytes()
 	}
+	if !ScheduledPlainWriters {
+		// the same schedule once more with the other entry point (destinations without WriteString)
+		ScheduledPlainWriters = true
+		err := checkSchedule(res, recipe, twin, inputs, sched, seen)
+		ScheduledPlainWriters = false
+		if err != nil {
+			return err
+		}
+	}
 	real := BuildReal(recipe)
 	before := SnapshotAP(real)
 	outs, err := RunScheduled(real, inputs, sched)
@@ -175,7 +202,8 @@ func checkSchedule(res *RunResult, recipe Recipe, twin *bm.Policy, inputs [][]by
 	}
 	for i := range inputs {
 		if !bytes.Equal(outs[i], seq[i]) {
-			add("differs-from-sequential", fmt.Sprintf("call %d on %q under schedule %v returned %q, sequentially %q", i+1, inputs[i], sched, outs[i], seq[i]))
+			add("differs-from-sequential", fmt.Sprintf("call %d on %q under schedule %v (%s) returned %q, sequentially %q", i+1, inputs[i], sched,
+				map[bool]string{false: "SanitizeReader", true: "SanitizeReaderToWriter, destination without WriteString"}[ScheduledPlainWriters], outs[i], seq[i]))
 		}
 		if again := real.SanitizeReader(bytes.NewReader(inputs[i])).Bytes(); !bytes.Equal(again, seq[i]) {
 			add("later-behaviour", fmt.Sprintf("after the concurrent calls, sanitising %q gives %q instead of %q", inputs[i], again, seq[i]))
@@ -376,6 +404,21 @@ func cmdConcStress(args []string) int {
 		if len(bad) > 0 && !seen["stress-differs"] {
 			seen["stress-differs"] = true
 			res.Violations = append(res.Violations, ViolationRec{Finding{"C13", "stress-differs", bad[0]}, writeC13Replay("stress-differs", bad[0], recipe, inputs[:1], nil)})
+		}
+		// results belong to the caller: a buffer one call returned (also from a call whose reader failed) may be written to
+		// and must never come back from a later call
+		for _, fail := range []int{-1, 2} {
+			in := inputs[0]
+			mk := func() io.Reader { return newScriptReader(in, ReaderScript{FailAt: fail, ErrKind: 1}) }
+			want := real.SanitizeReader(mk()).String()
+			b1 := real.SanitizeReader(mk())
+			b1.WriteString("POISON-WRITTEN-BY-AN-EARLIER-CALLER")
+			if got := real.SanitizeReader(mk()).String(); got != want && !seen["aliased-result"] {
+				seen["aliased-result"] = true
+				det := fmt.Sprintf("a result buffer returned by SanitizeReader (reader failing at byte %d) was written to by its caller; the next call returned %q instead of %q", fail, got, want)
+				res.Violations = append(res.Violations, ViolationRec{Finding{"C13", "aliased-result", det}, writeC13Replay("aliased-result", det, recipe, inputs[:1], nil)})
+			}
+			res.Execs += 3
 		}
 		if d := APDiff(before, SnapshotAP(real)); len(d) > 0 && !seen["stress-policy"] {
 			seen["stress-policy"] = true
